@@ -3,6 +3,33 @@
 Copies a confirmed seeded change from its scratch worktree /tmp/wt_<tag> into /verif/seeded/<tag>/ and writes meta.json
 from the agent's meta, my confirmation log (/tmp/seedwork/confirm_<tag>.log) and the evaluation log (/tmp/seedwork/eval_wt_<tag>_<tier>.log)."""
 import json, os, re, shutil, sys
+# Changes that the property's check did NOT detect when first evaluated, and what was added to the check because of it
+# (the evaluation recorded under detected_by_check is the one made after that strengthening).
+MISSED = {
+    "C09_a": "pipelines were built fresh for every transmission -> C09.link_reused_model: one ChannelCodeModel object used for several transmissions in train and eval mode, odd and even symbol counts",
+    "C15_a": "producers were only called with batched symbols -> unbatched 1-D layout for every soft demodulator (the pi/4-QPSK 1-D path is separate code)",
+    "C16_a": "the stateful machine read compute() after every step, which kept a stale result cache fresh -> compute() only where the generated history says so and once at the end",
+    "C17_a": "ParallelModel was only checked right after construction -> C17 parallel histories: add/remove branches between runs, completion order permuted",
+    "C20_a": "decoder batches were few and small -> three times as many full-size batches for decoders, members with 1..t errors at seeded positions, so that different error patterns with equal partial syndromes meet in one call",
+    "C02_b": "error patterns stopped at weight 4 -> seeded patterns of every weight up to t (t=5..7 for long BCH codes)",
+    "C05_b": "every scheme configuration ran in its own worker process -> cross-instance units: all configurations of a family in ONE process, used interleaved in both orders",
+    "C07_b": "one call per channel object -> C07 reuse unit: four calls per object (complex, complex, real, complex), float and 0-dim tensor parameters",
+    "C09_b": "every block of a transmission carried errors -> clean blocks mixed among corrupted ones, every single position in exactly one block of a row",
+    "C10_b": "the soft Reed-Muller decoder only saw clean LLRs and full-strength sign flips -> codeword LLRs with one weak wrong-sign position and random reliabilities, compared with soft ML, on every RM(r,m) incl. r = m-1",
+    "C15_b": "LDPC/BP consumers only used systematic generators -> non-systematic BP and min-sum consumers, soft RM consumer",
+    "C17_b": "multiple-access encoders always returned new tensors -> pass-through (aliasing) encoders: the superposition must be the plain sum and user inputs stay untouched",
+    "C20_b": "bit-valued inputs were float32 only -> int32/int64/float64 variants of every bit-valued batch, input compared before/after every call (the in-place XOR only aliases int32 inputs)",
+    "C02_c": "the Reed-Muller nearest-codeword inverse was exercised for k <= 11 and the quick catalogue stopped at m = 4 -> RM(r,5) in the quick tier and the inverse up to k = 16 (RM(2,5), RM(3,4)) in chunks of 8 words",
+    "C05_c": "generated sequences had at most 64 symbols x 4 rows -> long sequences (70001 symbols 1-D, 7 x 5003 and 3 x 1031 batched) for every scheme",
+    "C06_c": "noise variances were Python floats or a fresh tensor per call -> C06.f: one 0-dim tensor reused for three calls, same LLRs each time and tensor unchanged; every tensor noise_var compared before/after",
+    "C08_c": "composites were built completely before first use -> add_constraint histories: use, extend, use again, also nested in an outer composite, compared with sequential application after every step",
+    "C09_c": "the demodulator's noise variance was always a pipeline keyword -> the positional form model(x, noise_var) for every link whose stages accept it (judged from the forward signatures)",
+    "C12_c": "a fresh channel object per cell -> C12 reuse histories: one object, calls alternating between {0,1} and {-1,+1}, dtypes and shapes",
+    "C15_c": "WeightedThresholder only with a scalar weight -> per-position weight list/tensor, ensemble voting modes, soft-output LLR thresholder",
+    "C17_c": "BranchingModel was called once per model -> branching histories: add/remove/default/calls with overlapping input-dependent conditions on one object",
+    "C19_c": "PAPR gradient only at the default limit 3.0 -> limits 1.2, 1.5, 2, 6 on more shapes and seeds (reaches the late clipping phase)",
+    "C20_c": "only the decoded message of a decoder was compared -> the second output (soft estimate / error pattern) as a component of its own, one non-codeword member per soft batch, one arbitrary word per hard batch",
+}
 for tag in sys.argv[1:]:
     pid = tag.split("_")[0]
     wt = f"/tmp/wt_{tag}"
@@ -36,6 +63,7 @@ for tag in sys.argv[1:]:
                          f"git -C /repo apply seeded/{tag}/patch.diff && ./check {pid} --tier quick; git -C /repo checkout -- ."],
         },
         "detected_by_check": det,
+        "initially_missed": MISSED.get(tag),
     }
     json.dump(meta, open(f"{out}/meta.json", "w"), indent=1)
     print(tag, "stored;", "demo", meta["confirmed_by_me"]["demo_exit_with_change"], meta["confirmed_by_me"]["demo_exit_without_change"], "suite", sp.group(0) if sp else None, "detected", {k: v["violations"] for k, v in det.items()})
